@@ -1717,4 +1717,351 @@ theorem V4.fromStr_inv (input : Str) (o : Obj) (h : V4.fromStr input = .ok o) :
       obtain ⟨ip, len, mv, h1, h2, h3, h4, h5, h6, h7⟩ := V4.inv_mask a m o ha hm' h
       exact ⟨ip, len, h1, h2, h7, Or.inr (Or.inr (Or.inr ⟨mv, ws, h3, h6, hws, hsp, by rw [hs, h4, h5]⟩))⟩
 
+/-! ### IPv6 text constructor on the exploded text -/
+
+theorem splitWsAux_noSpace (s : Str) (h : ∀ c ∈ s, isSpace c = false) : splitWsAux false s = [s] := by
+  induction s with
+  | nil => rfl
+  | cons c cs ih =>
+    have := ih (fun x hx => h x (by simp [hx]))
+    simp [splitWsAux, h c (by simp), this]
+
+theorem splitWsAux_space (ws b : Str) (hws : ∀ c ∈ ws, isSpace c = true) (hb : ∀ c ∈ b, isSpace c = false) :
+    splitWsAux true (ws ++ b) = splitWsAux false b := by
+  induction ws with
+  | nil =>
+    cases b with
+    | nil => rfl
+    | cons c cs => simp [splitWsAux, hb c (by simp)]
+  | cons w ws ih =>
+    have := ih (fun x hx => hws x (by simp [hx]))
+    simp [splitWsAux, hws w (by simp), this]
+
+theorem splitWs_two (a ws b : Str) (ha : ∀ c ∈ a, isSpace c = false) (hws : ∀ c ∈ ws, isSpace c = true)
+    (hne : ws ≠ []) (hb : ∀ c ∈ b, isSpace c = false) : splitWs (a ++ ws ++ b) = [a, b] := by
+  unfold splitWs
+  induction a with
+  | nil =>
+    cases ws with
+    | nil => exact absurd rfl hne
+    | cons w ws' =>
+      simp only [List.nil_append, List.cons_append, splitWsAux, hws w (by simp), if_true, Bool.false_eq_true, if_false]
+      rw [splitWsAux_space ws' b (fun x hx => hws x (by simp [hx])) hb, splitWsAux_noSpace b hb]
+  | cons c cs ih =>
+    have := ih (fun x hx => ha x (by simp [hx]))
+    simp only [List.cons_append, List.append_assoc] at this ⊢
+    simp [splitWsAux, ha c (by simp), this]
+
+theorem parseHextet_hex4 (g : Nat) (h : g < 65536) : parseHextet (hex4 g) = some g := by
+  unfold parseHextet
+  have : (hex4 g).all isHexDigit = true := List.all_eq_true.mpr (fun c hc => (hex4_chars g c hc).1)
+  have hl : ¬ (hex4 g).length > 4 := by simp [hex4]
+  simp only [this, Bool.not_true, Bool.false_eq_true, if_false, hl, ofHex_hex4 g h]
+
+theorem isH_hex4 (g : Nat) : isH (hex4 g) = true := by
+  have : (hex4 g).all isHexDigit = true := List.all_eq_true.mpr (fun c hc => (hex4_chars g c hc).1)
+  unfold isH
+  rw [this]
+  simp [hex4]
+
+theorem hex4_ne_nil (g : Nat) : hex4 g ≠ [] := by simp [hex4]
+
+theorem stdV6Int_exploded (n : Nat) (h : n < 2 ^ 128) : stdV6Int (explodedV6 n) = some n := by
+  have hl := hextets_lt n
+  simp only [hextets, List.mem_cons, List.not_mem_nil, or_false, forall_eq_or_imp, forall_eq] at hl
+  obtain ⟨l0, l1, l2, l3, l4, l5, l6, l7⟩ := hl
+  unfold explodedV6
+  apply stdV6Int_of_parts
+  · simp [hextets]
+  · simp only [hextets, List.map, v6FromParts, List.length_cons, List.length_nil, List.drop_succ_cons, List.drop_zero,
+      List.dropLast_cons_cons, List.dropLast_singleton, emptyIdx, hex4_ne_nil, if_false, List.head?_cons,
+      Option.getD_some, List.getLast?_cons_cons, List.getLast?_singleton, Nat.reduceAdd, gt_iff_lt, Nat.reduceLT,
+      ne_eq, not_true_eq_false, accHextets_cons _ _ _ _ (parseHextet_hex4 _ l0) l0,
+      accHextets_cons _ _ _ _ (parseHextet_hex4 _ l1) l1, accHextets_cons _ _ _ _ (parseHextet_hex4 _ l2) l2,
+      accHextets_cons _ _ _ _ (parseHextet_hex4 _ l3) l3, accHextets_cons _ _ _ _ (parseHextet_hex4 _ l4) l4,
+      accHextets_cons _ _ _ _ (parseHextet_hex4 _ l5) l5, accHextets_cons _ _ _ _ (parseHextet_hex4 _ l6) l6,
+      accHextets_cons _ _ _ _ (parseHextet_hex4 _ l7) l7, accHextets_nil, Option.some.injEq]
+    simp only [Nat.zero_mul, Nat.zero_add]
+    exact val8_hextets n h
+  · intro p hp
+    rw [List.mem_map] at hp
+    obtain ⟨g, _, rfl⟩ := hp
+    exact ⟨fun c hc => (hex4_chars g c hc).2.1, fun c hc => (hex4_chars g c hc).2.2.1⟩
+
+
+theorem hexFormParts_exploded (n : Nat) : hexFormParts ((hextets n).map hex4) = true := by
+  simp only [hextets, List.map]
+  unfold hexFormParts
+  split
+  · rename_i heq
+    simp only [List.cons.injEq] at heq
+    exact absurd heq.1 (hex4_ne_nil _)
+  · rename_i rest heq
+    simp only [List.cons.injEq] at heq
+    exact absurd heq.1 (hex4_ne_nil _)
+  · simp [isH_hex4]
+
+theorem explodedV6_chars (n : Nat) : ∀ c ∈ explodedV6 n, isHexDigit c = true ∨ c = ':' := by
+  intro c hc
+  unfold explodedV6 at hc
+  rcases mem_join ':' _ c hc with h | ⟨p, hp, h⟩
+  · exact Or.inr h
+  · rw [List.mem_map] at hp
+    obtain ⟨g, _, rfl⟩ := hp
+    exact Or.inl (hex4_chars g c h).1
+
+theorem isSpace_hexColon (c : Char) (h : isHexDigit c = true ∨ c = ':') : isSpace c = false ∧ c ≠ '/' := by
+  rcases h with h | h
+  · unfold isHexDigit isDigit at h
+    simp only [Bool.or_eq_true, Bool.and_eq_true, decide_eq_true_eq] at h
+    constructor
+    · unfold isSpace Gen.whitespace
+      simp only [List.contains_eq_mem, List.mem_cons, List.not_mem_nil, or_false, decide_eq_false_iff_not]
+      omega
+    · rintro rfl
+      revert h; decide
+  · subst h; exact ⟨by decide, by decide⟩
+
+theorem tripleColonAhead_cons (c : Char) (s : Str) (h : c ≠ ':') : tripleColonAhead (c :: s) = false := by
+  unfold tripleColonAhead
+  split
+  · rename_i x heq
+    exact absurd (List.cons.inj heq).1 h
+  · rfl
+
+theorem explodedV6_cons (n : Nat) : ∃ c t, explodedV6 n = c :: t ∧ c ≠ ':' := by
+  have e : explodedV6 n = Nat.digitChar (n / 2 ^ 112 % 65536 / 4096 % 16) :: (explodedV6 n).tail := by
+    simp only [explodedV6, hextets, List.map, join, hex4, List.cons_append, List.tail_cons]
+  exact ⟨_, _, e, (hexd_fin ⟨_, Nat.mod_lt _ (by omega)⟩).2.2.1⟩
+
+/-- the IPv6 regex on `<exploded>` followed by nothing or by a separator and ASCII digits -/
+theorem matchV6_exploded (n : Nat) (tail : Str) (mask : Option Str)
+    (ht : (tail = [] ∧ mask = none) ∨
+      ∃ sep m, tail = sep :: m ∧ mask = some m ∧ (sep = '/' ∨ isSpace sep = true) ∧ m ≠ [] ∧ ∀ c ∈ m, isDigit c = true) :
+    matchV6 (explodedV6 n ++ tail) = some (explodedV6 n, mask) := by
+  unfold matchV6
+  obtain ⟨c, t, hc, hcol⟩ := explodedV6_cons n
+  have h3 : tripleColonAhead (explodedV6 n ++ tail) = false := by
+    rw [hc]; exact tripleColonAhead_cons c _ hcol
+  have htw := takeWhile_append (p := fun c => !(decide (c = '/') || isSpace c)) (explodedV6 n) tail
+    (fun c hc => by
+      have := isSpace_hexColon c (explodedV6_chars n c hc)
+      simp [this.1, this.2])
+    (fun c hc => by
+      rcases ht with ⟨rfl, _⟩ | ⟨sep, m, rfl, _, hsep, _⟩
+      · simp at hc
+      · simp only [List.head?_cons, Option.some.injEq] at hc
+        subst hc
+        rcases hsep with rfl | h
+        · simp
+        · simp [h])
+  have hok : matchHexForm (explodedV6 n) = true := by
+    unfold matchHexForm; rw [splitOn_exploded]; exact hexFormParts_exploded n
+  simp only [h3, Bool.false_eq_true, if_false, htw.1, htw.2, hok, Bool.true_or, Bool.not_true]
+  rcases ht with ⟨rfl, rfl⟩ | ⟨sep, m, rfl, rfl, _, hne, hd⟩
+  · rfl
+  · simp only [fullDigits_digits m hne hd, if_true]
+
+
+theorem explodedV6_ne' (n : Nat) (x : Char) (hx : isHexDigit x = false) (hd : x ≠ ':') : ∀ c ∈ explodedV6 n, c ≠ x := by
+  intro c hc
+  rcases explodedV6_chars n c hc with h | h
+  · rintro rfl; rw [h] at hx; cases hx
+  · rw [h]; exact fun e => hd e.symm
+
+theorem stdV6Addr_exploded (n : Nat) (h : n < 2 ^ 128) : stdV6Addr (explodedV6 n) = .ok n := by
+  unfold stdV6Addr
+  rw [contains_false _ '/' (explodedV6_ne' n '/' (by decide) (by decide)),
+    contains_false _ '%' (explodedV6_ne' n '%' (by decide) (by decide))]
+  simp [stdV6Int_exploded n h]
+
+theorem makeNetmask6_digits (m : Str) (len : Nat) (hne : m ≠ []) (hd : ∀ c ∈ m, isDigit c = true)
+    (hv : ofDigits m = some len) (hl : len ≤ 128) : makeNetmask6 m = .ok len := by
+  unfold makeNetmask6 prefixFromPrefixString
+  have : m.all isDigit = true := List.all_eq_true.mpr hd
+  simp [hne, this, hv, hl]
+
+/-- the tail of `IPv6Obj.__init__` once the regex has matched `<exploded>/<digits>` -/
+theorem V6.fromStr_core (ip len : Nat) (m : Str) (hip : ip < 2 ^ 128) (hl : len ≤ 128) (hne : m ≠ [])
+    (hd : ∀ c ∈ m, isDigit c = true) (hv : ofDigits m = some len) :
+    (match matchV6 (strip (explodedV6 ip ++ '/' :: m)) with
+    | none => (.error .addressValueError : Except Err Obj)
+    | some (addr, masklen) => do
+      let ip ← stdV6Addr addr
+      let netstr := match masklen with
+        | some m => addr ++ '/' :: m
+        | none => addr ++ "/128".toList
+      let n ← stdV6Net false netstr
+      pure ⟨ip, n.1, n.2⟩) = .ok (mk6 ip len) := by
+  have hns : ∀ c ∈ explodedV6 ip ++ '/' :: m, isSpace c = false := by
+    intro c hc
+    simp only [List.mem_append, List.mem_cons] at hc
+    rcases hc with h | h | h
+    · exact (isSpace_hexColon c (explodedV6_chars ip c h)).1
+    · rw [h]; decide
+    · exact isSpace_of_isDigit c (hd c h)
+  rw [strip_noSpace _ hns, matchV6_exploded ip ('/' :: m) (some m) (Or.inr ⟨'/', m, rfl, rfl, Or.inl rfl, hne, hd⟩)]
+  have hnet : stdV6Net false (explodedV6 ip ++ '/' :: m) = .ok (ip &&& ipIntFromPrefix 128 len, len) := by
+    unfold stdV6Net splitOptionalNetmask
+    rw [splitOn_slash _ _ (explodedV6_ne' ip '/' (by decide) (by decide))
+      (fun c hc => ne_of_isDigit c '/' (by decide) (hd c hc))]
+    simp only [bind, Except.bind, stdV6Addr_exploded ip hip, makeNetmask6_digits m len hne hd hv hl]
+    exact finishNet_false 128 ip len
+  simp only [bind, Except.bind, stdV6Addr_exploded ip hip, hnet]
+  rfl
+
+theorem V6.fromStr_exploded (input : Str) (ip len : Nat) (m : Str) (hip : ip < 2 ^ 128) (hl : len ≤ 128)
+    (hne : m ≠ []) (hd : ∀ c ∈ m, isDigit c = true) (hv : ofDigits m = some len) (hlen : input.length ≤ 43)
+    (hs : strip input = explodedV6 ip ++ '/' :: m ∨
+      ∃ ws, ws ≠ [] ∧ (∀ c ∈ ws, isSpace c = true) ∧ strip input = explodedV6 ip ++ ws ++ m) :
+    V6.fromStr input = .ok (mk6 ip len) := by
+  unfold V6.fromStr
+  have hg : ¬ input.length > Gen.ipv6MaxStrLen := by unfold Gen.ipv6MaxStrLen; omega
+  rw [if_neg hg]
+  have hea : ∀ c ∈ explodedV6 ip, isSpace c = false :=
+    fun c hc => (isSpace_hexColon c (explodedV6_chars ip c hc)).1
+  have hm : ∀ c ∈ m, isSpace c = false := fun c hc => isSpace_of_isDigit c (hd c hc)
+  have core := V6.fromStr_core ip len m hip hl hne hd hv
+  rcases hs with hs | ⟨ws, hw1, hw2, hs⟩
+  · have hns : ∀ c ∈ explodedV6 ip ++ '/' :: m, isSpace c = false := by
+      intro c hc
+      simp only [List.mem_append, List.mem_cons] at hc
+      rcases hc with h | h | h
+      · exact hea c h
+      · rw [h]; decide
+      · exact hm c h
+    rw [hs]
+    unfold splitWs
+    rw [splitWsAux_noSpace _ hns]
+    exact core
+  · rw [hs, splitWs_two _ ws m hea hw2 hw1 hm]
+    exact core
+
+
+/-! ### converse for IPv6: the regex consumes the whole text -/
+
+theorem matchV6_sound (s a : Str) (mask : Option Str) (h : matchV6 s = some (a, mask)) :
+    (∀ c ∈ a, c ≠ '/' ∧ isSpace c = false) ∧
+    ((mask = none ∧ s = a) ∨
+     ∃ sep m, mask = some m ∧ s = a ++ sep :: m ∧ (sep = '/' ∨ isSpace sep = true) ∧ IsRun m) := by
+  unfold matchV6 at h
+  split at h
+  · cases h
+  · simp only at h
+    split at h
+    · cases h
+    · have e2 := List.takeWhile_append_dropWhile (p := fun c => !(decide (c = '/') || isSpace c)) (l := s)
+      have hall : ∀ c ∈ s.takeWhile (fun c => !(decide (c = '/') || isSpace c)), c ≠ '/' ∧ isSpace c = false := by
+        intro c hc
+        have := mem_takeWhile (p := fun c => !(decide (c = '/') || isSpace c)) s c hc
+        simp only [Bool.not_eq_true', Bool.or_eq_false_iff, decide_eq_false_iff_not] at this
+        exact this
+      cases hd : s.dropWhile (fun c => !(decide (c = '/') || isSpace c)) with
+      | nil =>
+        rw [hd] at h
+        simp only [Option.some.injEq, Prod.mk.injEq] at h
+        obtain ⟨rfl, rfl⟩ := h
+        refine ⟨hall, Or.inl ⟨rfl, ?_⟩⟩
+        rw [hd] at e2; simpa using e2.symm
+      | cons sep m =>
+        rw [hd] at h
+        simp only at h
+        split at h
+        · rename_i hf
+          simp only [Option.some.injEq, Prod.mk.injEq] at h
+          obtain ⟨rfl, rfl⟩ := h
+          have hsep := head_dropWhile (p := fun c => !(decide (c = '/') || isSpace c)) s sep (by rw [hd]; rfl)
+          simp only [Bool.not_eq_false', Bool.or_eq_true, decide_eq_true_eq] at hsep
+          unfold fullDigits at hf
+          simp only [Bool.and_eq_true, ne_eq, List.all_eq_true, decide_eq_true_eq] at hf
+          refine ⟨hall, Or.inr ⟨sep, m, rfl, ?_, hsep, ⟨hf.1, hf.2⟩⟩⟩
+          rw [hd] at e2; exact e2.symm
+        · cases h
+
+theorem makeNetmask6_sound (m : Str) (len : Nat) (h : makeNetmask6 m = .ok len) :
+    m ≠ [] ∧ (∀ c ∈ m, isDigit c = true) ∧ ofDigits m = some len ∧ len ≤ 128 := by
+  unfold makeNetmask6 at h
+  cases h1 : prefixFromPrefixString 128 m with
+  | none => rw [h1] at h; cases h
+  | some v =>
+    rw [h1] at h; cases h
+    unfold prefixFromPrefixString at h1
+    split at h1
+    · rename_i hc
+      split at h1
+      · rename_i n hn
+        split at h1
+        · cases h1; exact ⟨hc.1, List.all_eq_true.mp hc.2, hn, by assumption⟩
+        · cases h1
+      · cases h1
+    · cases h1
+
+/-- **what an accepted IPv6 text is** (as far as proved): after `strip()` and the blank-to-slash
+rewrite the *whole* text is `addr` or `addr<sep>digits`; `addr` is the text the stdlib parsed into the
+stored address, `digits` are ASCII digits whose value is the stored prefix length ≤ 128 -/
+theorem V6.fromStr_inv (input : Str) (o : Obj) (h : V6.fromStr input = .ok o) :
+    input.length ≤ 43 ∧ o = mk6 o.ip o.len ∧ o.len ≤ 128 ∧
+    ∃ joined addr,
+      (splitWs (strip input) = [joined] ∨ ∃ a b, splitWs (strip input) = [a, b] ∧ joined = a ++ '/' :: b) ∧
+      stdV6Addr addr = .ok o.ip ∧
+      ((strip joined = addr ∧ o.len = 128) ∨
+       ∃ sep m, strip joined = addr ++ sep :: m ∧ (sep = '/' ∨ isSpace sep = true) ∧ m ≠ [] ∧
+         (∀ c ∈ m, isDigit c = true) ∧ ofDigits m = some o.len) := by
+  unfold V6.fromStr at h
+  split at h
+  · cases h
+  · rename_i hlen
+    have hlen' : input.length ≤ 43 := by unfold Gen.ipv6MaxStrLen at hlen; omega
+    simp only at h
+    split at h
+    · cases h
+    · rename_i v6input hj
+      have hsplit : splitWs (strip input) = [v6input] ∨
+          ∃ a b, splitWs (strip input) = [a, b] ∧ v6input = a ++ '/' :: b := by
+        split at hj
+        · rename_i a b he; cases hj; exact Or.inr ⟨a, b, he, rfl⟩
+        · rename_i a he; cases hj; exact Or.inl he
+        · cases hj
+      split at h
+      · cases h
+      · rename_i addr masklen hm
+        have ms := matchV6_sound _ addr masklen hm
+        cases e1 : stdV6Addr addr with
+        | error e => simp [bind, Except.bind, e1] at h
+        | ok ip =>
+          simp only [bind, Except.bind, e1] at h
+          have hno : ∀ c ∈ addr, c ≠ '/' := fun c hc => (ms.1 c hc).1
+          rcases ms.2 with ⟨rfl, hs⟩ | ⟨sep, m, rfl, hs, hsep, hrun⟩
+          · -- no mask: "/128"
+            have hnet : stdV6Net false (addr ++ "/128".toList) = .ok (ip &&& ipIntFromPrefix 128 128, 128) := by
+              unfold stdV6Net splitOptionalNetmask
+              rw [show addr ++ "/128".toList = addr ++ '/' :: "128".toList from rfl,
+                splitOn_slash _ _ hno (by decide)]
+              simp only [bind, Except.bind, e1]
+              rw [show makeNetmask6 "128".toList = .ok 128 from rfl]
+              exact finishNet_false 128 ip 128
+            simp only [hnet, pure, Except.pure, Except.ok.injEq] at h
+            subst h
+            exact ⟨hlen', rfl, Nat.le_refl 128, v6input, addr, hsplit, e1, Or.inl ⟨hs, rfl⟩⟩
+          · have hmno : ∀ c ∈ m, c ≠ '/' := run_ne m hrun '/' (by decide)
+            cases e2 : makeNetmask6 m with
+            | error e =>
+              exfalso
+              have : stdV6Net false (addr ++ '/' :: m) = .error e := by
+                unfold stdV6Net splitOptionalNetmask
+                rw [splitOn_slash _ _ hno hmno]
+                simp only [bind, Except.bind, e1, e2]
+              simp [this] at h
+            | ok len =>
+              have hnet : stdV6Net false (addr ++ '/' :: m) = .ok (ip &&& ipIntFromPrefix 128 len, len) := by
+                unfold stdV6Net splitOptionalNetmask
+                rw [splitOn_slash _ _ hno hmno]
+                simp only [bind, Except.bind, e1, e2]
+                exact finishNet_false 128 ip len
+              simp only [hnet, pure, Except.pure, Except.ok.injEq] at h
+              subst h
+              have hd := makeNetmask6_sound m len e2
+              exact ⟨hlen', rfl, hd.2.2.2, v6input, addr, hsplit, e1,
+                Or.inr ⟨sep, m, hs, hsep, hd.1, hd.2.1, hd.2.2.1⟩⟩
+
 end Ccp.IPText
